@@ -9,17 +9,201 @@ swap is what the property promises (cells of surviving voices move with the
 voice, everything else starts at zero, the clock keeps running; a failing
 compilation changes nothing).  Every history is replayed through the real
 hot-swap paths of VM and WASM and channel A is compared sample by sample."""
+import hashlib
 import json
 import os
+import struct
 
 import printer
 import vlib
 
 BOUNDS = {
-    "quick": {"NTicks": 6, "MaxEdits": 2, "MaxVoices": 3, "InitVoices": 2, "EditAt": "{1, 3}"},
-    "thorough": {"NTicks": 8, "MaxEdits": 2, "MaxVoices": 3, "InitVoices": 2, "EditAt": "{0, 1, 2, 3, 5}"},
+    "quick": {"NTicks": 6, "MaxEdits": 2, "MaxVoices": 3, "InitVoices": 2, "EditAt": "{1, 3}", "Live": "FALSE", "Frames": "{1}"},
+    "thorough": {"NTicks": 8, "MaxEdits": 2, "MaxVoices": 3, "InitVoices": 2, "EditAt": "{0, 1, 2, 3, 5}", "Live": "FALSE", "Frames": "{1}"},
 }
 BROKEN = "fn dsp(){\n  (1 + , 2\n}\n"
+
+# the live-coding loop (EditSwap.tla with Live = TRUE): TLC explores every history within these bounds and checks
+# the invariants on all of them; `replay` histories are driven through the real loop (see live_layer)
+LIVE_BOUNDS = {
+    "quick": {"NTicks": 4, "MaxEdits": 2, "MaxVoices": 3, "InitVoices": 2, "EditAt": "{0, 1, 2}", "Live": "TRUE", "Frames": "{1, 2}",
+              "replay": 700},
+    "thorough": {"NTicks": 5, "MaxEdits": 2, "MaxVoices": 3, "InitVoices": 2, "EditAt": "{0, 1, 2, 3}", "Live": "TRUE",
+                 "Frames": "{1, 2}", "replay": 6000},
+}
+
+
+def f32(x):
+    return struct.unpack("f", struct.pack("f", float(x)))[0]
+
+
+def voices_of(prog):
+    """[(let name, callee)] of dsp's voices in layout order (the callee determines the state shape)."""
+    def callee(e):
+        if isinstance(e, dict):
+            if e.get("k") == "call":
+                return e["f"]
+            for v in e.values():
+                c = callee(v)
+                if c:
+                    return c
+        elif isinstance(e, list):
+            for v in e:
+                c = callee(v)
+                if c:
+                    return c
+        return None
+    out, b = [], prog["fns"]["dsp"]["b"]
+    while isinstance(b, dict) and b.get("k") == "let":
+        out.append((b["x"], callee(b["a"])))
+        b = b["b"]
+    return out
+
+
+def keeps_offsets(old, new):
+    """True when every voice of `old` that survives in `new` (same name, same shape) lies in the common prefix of the
+    two layouts: a migration that copies the old words verbatim is then exactly what the property asks for."""
+    m = 0
+    while m < len(old) and m < len(new) and old[m] == new[m]:
+        m += 1
+    return not (set(old[m:]) & set(new[m:]))
+
+
+def live_model(chk, tier):
+    """LiveLoop.tla: the protocol between editor, watcher thread and audio thread, all interleavings.  Each row:
+    (backend, consumer, shifting edits, invariant, violation expected)."""
+    rows = [("vm", "one_per_callback", "TRUE", "SwapKeepsPromise", False),
+            ("wasm_inproc", "one_per_callback", "TRUE", "SwapKeepsPromise", False),
+            # taking only the newest waiting program applies a plan to a program it was not computed for
+            ("wasm_inproc", "drain_latest", "TRUE", "PlanMatchesRunningProgram", True),
+            # what the CLI does for WASM today (compiler subprocess, no layout in the payload): the pinned finding
+            ("wasm_subproc", "one_per_callback", "TRUE", "SurvivorsContinue", True),
+            ("wasm_subproc", "one_per_callback", "FALSE", "SurvivorsContinue", False)]
+    if tier == "thorough":
+        rows += [("vm", "drain_latest", "TRUE", "SwapKeepsPromise", False), ("vm", "drain_all", "TRUE", "SwapKeepsPromise", False),
+                 ("wasm_inproc", "drain_all", "TRUE", "SwapKeepsPromise", False),
+                 ("wasm_inproc", "drain_latest", "TRUE", "SwapKeepsPromise", True),
+                 ("wasm_subproc", "one_per_callback", "FALSE", "SwapKeepsPromise", True)]
+    for be, cons, shift, inv, expect in rows:
+        path = os.path.join(vlib.TLA_DIR, "LiveLoop_run.cfg")
+        with open(path, "w") as f:
+            f.write(f'SPECIFICATION Spec\nCONSTANTS\n  Backend = "{be}"\n  Consumer = "{cons}"\n  Voices = {{1, 2, 3, 4}}\n'
+                    f'  MaxSaves = 3\n  MaxCallbacks = {3 if tier == "quick" else 4}\n  ShiftingEdits = {shift}\n'
+                    f'INVARIANT {inv}\nINVARIANT LastGoodSaveRuns\nINVARIANT ProducerTracksChannel\nCHECK_DEADLOCK FALSE\n')
+        r = vlib.run_tlc("LiveLoop", "LiveLoop_run", workers=6, timeout=1500)
+        label = f"LiveLoop[{be}, {cons}, shifting edits {shift}: {inv}{', violation expected' if expect else ''}]"
+        chk.tlc(r, label)
+        if bool(r.violation) != expect:
+            if expect:
+                raise vlib.ToolError(f"{label}: no violation found (vacuous model)")
+            chk.violation(f"model: {label}: {r.violation}", {"tlc": vlib.tlc_error_trace(r.stdout)}, key="model-liveloop-" + be + cons)
+
+
+def live_layer(chk, tier):
+    """C07 (and the repeated identical swap of C06) through the live-coding loop as the CLI runs it: FileRunner
+    (compile service thread / compiler subprocess, payload composition against the last *prepared* program), the
+    swap channel, and the native driver's audio callback, which takes one waiting program per invocation."""
+    live_model(chk, tier)
+    b = dict(LIVE_BOUNDS[tier])
+    nrep = b.pop("replay")
+    path = os.path.join(vlib.TLA_DIR, "EditSwap_liverun.cfg")
+    with open(path, "w") as f:
+        f.write("SPECIFICATION Spec\nCONSTANTS\n")
+        for k, v in b.items():
+            f.write(f"  {k} = {v}\n")
+        f.write("INVARIANT CellsWellFormed\nINVARIANT QueueEndsWithFile\nINVARIANT NothingWaitingMeansFileRuns\n"
+                "INVARIANT Emit\nCHECK_DEADLOCK FALSE\n")
+    r = vlib.run_tlc("EditSwap", "EditSwap_liverun", workers=12, timeout=3000)
+    chk.tlc(r, "EditSwap(Live)")
+    if r.violation:
+        chk.violation(f"model (live loop): {r.violation}", {"tlc": vlib.tlc_error_trace(r.stdout)}, key="model-live")
+    reps = sorted(r.tagged["REPLAY"], key=lambda x: json.dumps(x, sort_keys=True))
+    # structural cover: one history per class (sequence of operations, callback sizes and voice layouts by name),
+    # then a seeded fill; the shapes of the voices vary inside a class
+    classes, rest = {}, []
+    for rep in reps:
+        sig = []
+        for h in rep["hist"]:
+            if h["op"] == "cb":
+                sig.append(("cb", h["frames"]))
+            elif h["op"] == "broken":
+                sig.append(("broken",))
+            else:
+                sig.append((h["op"], tuple(n for n, _ in voices_of(h["prog"]))))
+        sig = tuple(sig)
+        if sig in classes:
+            rest.append(rep)
+        else:
+            classes[sig] = rep
+    hk = lambda x: hashlib.sha256((str(vlib.seed()) + json.dumps(x, sort_keys=True)).encode()).hexdigest()
+    chosen = sorted(classes.values(), key=hk)
+    rest.sort(key=lambda x: hashlib.sha256((str(vlib.seed()) + json.dumps(x, sort_keys=True)).encode()).hexdigest())
+    chosen = (chosen + rest)[:max(nrep, 0)] if len(chosen) < nrep else chosen[:nrep]
+    pinned = []
+    d = os.path.join(vlib.VERIF, "findings", "C07")
+    if os.path.isdir(d):
+        for fn in sorted(os.listdir(d)):
+            if fn.startswith("live_") and fn.endswith(".json"):
+                pinned.append(json.load(open(os.path.join(d, fn))))
+    reqs, meta = [], []
+
+    def add(src0, ops, labels, exp, mask, backend, pinned_case=False):
+        reqs.append({"id": len(reqs), "backend": backend, "src": src0, "ops": ops, "hch": 2, "bufsize": 64, "dir": vlib.WORK})
+        meta.append((labels, exp, mask, pinned_case))
+
+    skipped_shifting = 0
+    for rep in chosen:
+        hist = rep["hist"]
+        src0 = printer.program(hist[0]["prog"])
+        ops, labels, layouts = [], [], [voices_of(hist[0]["prog"])]
+        for h in hist[1:]:
+            if h["op"] == "cb":
+                ops.append({"op": "cb", "frames": h["frames"]})
+                labels.append(f"cb({h['frames']})")
+            elif h["op"] == "broken":
+                ops.append({"op": "edit", "src": BROKEN})
+                labels.append("broken")
+            else:
+                ops.append({"op": "edit", "src": printer.program(h["prog"])})
+                labels.append(h["op"])
+                layouts.append(voices_of(h["prog"]))
+        add(src0, ops, labels, rep["expectA"], rep["mask"], "vm")
+        # WASM: the CLI compiles in a subprocess and loses the state layout, so the audio thread copies the old
+        # words verbatim (pinned finding): the replayed histories are those in which that copy is the right migration
+        if all(keeps_offsets(a, b2) for a, b2 in zip(layouts, layouts[1:])):
+            add(src0, ops, labels, rep["expectA"], rep["mask"], "wasm")
+        else:
+            skipped_shifting += 1
+    for c in pinned:
+        add(c["src"], c["ops"], c["labels"], c["expectA"], c["mask"], c["backend"], True)
+    env = dict(os.environ, MMVERIF_HOME=os.path.join(vlib.WORK, "home"))
+    os.makedirs(env["MMVERIF_HOME"], exist_ok=True)
+    res = vlib.run_harness("live", reqs, timeout_per_req=60, env=env)
+    nviol = 0
+    for req, out, crash in res:
+        labels, exp, mask, pinned_case = meta[req["id"]]
+        be = req["backend"]
+        key = vlib.canon_key({"live": be, "src": req["src"], "ops": req["ops"]})
+        case = {"backend": be, "src": req["src"], "ops": req["ops"], "labels": labels, "expectA": exp, "mask": mask}
+        if crash or out is None:
+            chk.violation(f"live loop ({be}): process died during {labels}: {crash}\n{req['src']}", case, key=key)
+            continue
+        got = [row[0] if row else None for row in out.get("out", [])]
+        ok = out.get("status") == "ok" and len(got) == len(exp) and all(
+            (not m) or (isinstance(g, (int, float)) and float(g) == f32(e)) for g, e, m in zip(got, exp, mask))
+        if not ok:
+            nviol += 1
+            chk.violation(f"live loop ({be}): history {labels}: channel A {got} (status {out.get('status')} "
+                          f"{str(out.get('msg', ''))[:100]}) instead of {exp} (compared where {mask})\n--- initial program\n"
+                          f"{req['src']}--- saved versions\n" + "\n".join(o.get('src', '') for o in req["ops"] if o["op"] == "edit")[:1500],
+                          case, key=key)
+    chk.cov["live_histories_explored_by_tlc"] = len(reps)
+    chk.cov["live_histories_replayed"] = len(chosen)
+    chk.cov["live_history_classes"] = len(classes)
+    chk.cov["live_runs"] = len(reqs)
+    chk.cov["live_wasm_histories_outside_clean_fragment"] = skipped_shifting
+    chk.cov["live_pinned"] = len(pinned)
+    return len(reqs)
 
 
 def run(tier):
@@ -74,8 +258,9 @@ def run(tier):
                               f"{[s.get('ok') for s in sw]}) instead of {exp}\n--- initial program\n{req['src']}--- versions\n"
                               + "\n".join(srcs)[:1500], dict(case, backend=be), key=key)
         distinct.add(key)
+    nlive = live_layer(chk, tier)
     chk.cov["histories"] = len(reps)
-    chk.cov["evaluations"] = len(reps) * 2
+    chk.cov["evaluations"] = len(reps) * 2 + nlive
     chk.cov["distinct_nontrivial"] = len(distinct)
     chk.cov["rule"] = "every history of ticks, edits and failing compilations within the bounds (TLC, exhaustive); distinct = history"
     chk.cov["exhaustive"] = True
